@@ -3195,6 +3195,12 @@ func (gbi *groupByIterator) nextAtIdx(i int) {
 		}
 		if wrapped && i != 0 {
 			gbi.nextAtIdx(i - 1)
+			if gbi.done {
+				// the fields above are exhausted: without this the search
+				// for a non-empty row below never ends when every row of
+				// this field misses the last row of the field above.
+				return
+			}
 		}
 		if i == 0 && gbi.filter != nil {
 			gbi.rows[i].row = nr.Intersect(gbi.filter)
